@@ -56,6 +56,12 @@ class pint(_bint, metaclass=_IntMeta):
             return x
         if t is SymBool:
             return x.as_int()
+        if t is str and core.active():
+            mg = core.engine().magic
+            if mg:
+                hit = mg.get(x.strip().lower())
+                if hit is not None:
+                    return hit
         if t is str and core.active() and "⟦" in x:
             h = core.engine().handles.get(x.strip())
             if h is not None:
@@ -294,12 +300,15 @@ class _Finder(importlib.abc.MetaPathFinder):
 _installed = False
 
 
-def install(repo="/repo"):
+def install(repo=None):
     """Install the import hook and put the repository on sys.path. Idempotent."""
     global _installed
     if _installed:
         return
     import os
+
+    if repo is None:
+        repo = os.environ.get("VERIF_REPO", "/repo")
 
     os.environ.setdefault("FORCE_BINJA_MOCK", "1")
     for m in list(sys.modules):
